@@ -249,6 +249,16 @@ pub fn seq_case(rng: &mut Rng, id: String) -> Case {
                             }
                         }
                     }
+                    if fwd && live[r] && !stopped && proxy.is_some() {
+                        // the route goes on working: the next well-formed message on it arrives (this also makes the router quiescent again)
+                        tag += 1;
+                        ops.push(format!("send {} {}", r, tag));
+                        let _ = tx.send(tag);
+                        let t = tag;
+                        if !wait_for(&log, |l| l.contains(&L::Invoke(r, t)), 5000) {
+                            case.fail(format!("message {} sent on crossbeam-forwarding route {} after an undecodable one never arrived: the route is dead although its channel is open", t, r));
+                        }
+                    }
                     case.tags.push(format!("undecodable={}", if fwd { "forwarding" } else { "callback" }));
                 }
             },
